@@ -800,7 +800,9 @@ class PreferredUnits(metaclass=PreferredUnitsMeta):  # pylint: disable=too-many-
         """set preferred units from Mapping"""
         for attribute, value in kwargs.items():
 
-            if hasattr(PreferredUnits, attribute):
+            # only declared slots: hasattr() also matched 'set', 'defaults', '__doc__', ... so that a config file
+            # with the key `defaults = 'Meter'` replaced the classmethod by a Unit
+            if attribute in getattr(PreferredUnits, '__dataclass_fields__'):
                 if isinstance(value, Unit):
                     setattr(PreferredUnits, attribute, value)
                 elif isinstance(value, str):
